@@ -12,6 +12,7 @@ import (
 	"encoding/json"
 	"fmt"
 	"os"
+	"reflect"
 	"sort"
 	"strings"
 	"sync"
@@ -248,3 +249,6 @@ func GetReached() []string {
 	defer mu.Unlock()
 	return append([]string(nil), Reached...)
 }
+
+// DeepEqual is reflect.DeepEqual; under the executor the result may be symbolic.
+func DeepEqual(a, b interface{}) bool { return reflect.DeepEqual(a, b) }
